@@ -32,6 +32,28 @@ def _cb(tag):
     return cb
 
 
+ISSUED = []  # every stream a keeping callback handed out (they are streams like any other)
+_MEMO = {}
+
+
+def _cb_keep(tag):
+    """A callback that memoises the decorated stream per source stream - legitimate precisely
+    because streams are immutable values - and keeps what it issued."""
+
+    def cb(s: ObjectStream, a):
+        FAULT["cb_calls"] += 1
+        if FAULT["cb_raise"]:
+            raise InjectedCallbackError(tag)
+        key = (tag, id(s))
+        if key not in _MEMO:
+            out = s.MetaData({"m": tag})
+            _MEMO[key] = (s, out)
+            ISSUED.append(out)
+        return _MEMO[key][1], a
+
+    return cb
+
+
 # variant 0: plain typed classes, defaults only
 class Jet0:
     def pt(self, scale: float = 1.0) -> float: ...  # noqa
@@ -100,7 +122,24 @@ class Evt2:
     def need(self, name: str) -> float: ...  # noqa
 
 
-EVT = [Evt0, Evt1, Evt2]
+# variant 3: callbacks that keep the streams they return
+class Jet3:
+    def pt(self, scale: float = 1.0) -> float: ...  # noqa
+
+    @func_adl_callback(_cb_keep("jet3_eta"))
+    def eta(self, a: int = 1, b: int = 2) -> float: ...  # noqa
+
+
+@func_adl_callback(_cb_keep("evt3"))
+class Evt3:
+    def jets(self, name: str = "def") -> Iterable[Jet3]: ...  # noqa
+
+    def met(self) -> float: ...  # noqa
+
+    def need(self, name: str) -> float: ...  # noqa
+
+
+EVT = [Evt0, Evt1, Evt2, Evt3]
 
 
 @dataclasses.dataclass
@@ -121,6 +160,8 @@ def setup():
     reset_global_functions()
     FAULT["cb_raise"] = False
     FAULT["cb_calls"] = 0
+    ISSUED.clear()
+    _MEMO.clear()
     register_func_adl_os_collection(JetColl)
     func_adl_parameterized_call(_param_cb)(Evt1.__dict__["info"])
 
